@@ -287,6 +287,61 @@ fn verif_packet_handshake_unprotect() {
     }
 }
 
+// transport::Error constructors are #[track_caller]: Location::caller has no Kani model
+#[cfg(kani)]
+static VERIF_LOC_HS: &core::panic::Location<'static> = core::panic::Location::caller();
+#[cfg(kani)]
+struct StubLocHs<'a>(core::marker::PhantomData<&'a ()>);
+#[cfg(kani)]
+impl<'a> StubLocHs<'a> {
+    fn caller() -> &'static core::panic::Location<'static> {
+        VERIF_LOC_HS
+    }
+}
+
+// C06 / C04: removing packet protection from a Handshake packet (any header the decoder accepts, any
+// header-protection mask): a packet the AEAD does not authenticate is ONLY a decrypt error - its
+// unauthenticated reserved bits are never looked at - while an authentic packet with reserved bits
+// set is a PROTOCOL_VIOLATION (RFC 9000 17.2: checked after removing packet AND header protection).
+#[cfg_attr(kani, kani::proof)]
+#[cfg_attr(kani, kani::unwind(9))]
+#[cfg_attr(kani, kani::stub(core::panic::Location::caller, StubLocHs::caller))]
+fn verif_packet_handshake_decrypt_verdict() {
+    use crate::connection::ProcessingError;
+    let orig: [u8; N_UNPROTECT] = kani::any();
+    let len: usize = kani::any();
+    kani::assume(len >= 5 && len <= N_UNPROTECT);
+    kani::assume(orig[0] >> 4 == 0b1110);
+    let hkey = MaskKey { mask: kani::any(), sample_len: 0 };
+    let largest = PacketNumberSpace::Handshake.new_packet_number(VarInt::from_u8(0));
+    let mut bytes = orig;
+    if let Ok((packet, _rest)) = ProtectedHandshake::decode(orig[0], peeked_version(&orig), DecoderBufferMut::new(&mut bytes[..len])) {
+        if let Ok(encrypted) = packet.unprotect(&hkey, largest) {
+            let first = orig[0] ^ (hkey.mask[0] & 0x0f);
+            let reserved = first & 0x0c;
+            let mut key = crate::crypto::key::testing::Key::default();
+            key.fail_on_decrypt = kani::any();
+            let authentic = !key.fail_on_decrypt;
+            match encrypted.decrypt(&key) {
+                Ok(_) => {
+                    assert!(authentic && reserved == 0);
+                    kani::cover!(true, "authentic packet accepted");
+                }
+                Err(ProcessingError::DecryptError) => {
+                    assert!(!authentic);
+                    kani::cover!(reserved != 0, "forged packet with reserved bits set is only dropped");
+                }
+                Err(ProcessingError::ConnectionError(e)) => {
+                    assert!(authentic && reserved != 0);
+                    assert!(matches!(e, crate::connection::Error::Transport { code, .. } if code == crate::transport::Error::PROTOCOL_VIOLATION.code));
+                    kani::cover!(true, "authentic packet with reserved bits rejected");
+                }
+                Err(_) => panic!("unexpected verdict"),
+            }
+        }
+    }
+}
+
 // ---- generated by tools/fixup.py: native replay entry ----
 #[cfg(not(kani))]
 #[test]
@@ -296,5 +351,6 @@ fn verif_replay() {
         ("verif_packet_handshake_cid_bound", verif_packet_handshake_cid_bound),
         ("verif_packet_handshake_roundtrip", verif_packet_handshake_roundtrip),
         ("verif_packet_handshake_unprotect", verif_packet_handshake_unprotect),
+        ("verif_packet_handshake_decrypt_verdict", verif_packet_handshake_decrypt_verdict),
     ]);
 }
